@@ -27,9 +27,11 @@ NOT_APPLICABLE = {
     "C13": "check under construction in this session (size model only)",
     "C16": "check under construction in this session",
     "C18": "check under construction in this session",
-    "C19": "check under construction in this session",
 }
 CHECKS = {
+    "C19": dict(engine="E2", design_ref="DESIGN.md 2 / C19", technique="symbolic execution of the collateral setters' MIR with a pointwise value abstraction; SMT (z3 + cvc5); native confirmation through the public API",
+                text="set_collateral_return_and_total and set_total_collateral_and_return are executed from MIR from a builder state whose collateral fields may already be set: on Ok, collateral inputs == return + total as whole values (lovelace exactly; an arbitrary asset's whole quantity in the return), the total is the stored coin, the return meets min ADA; on Err both fields are as before. The percentage helper hands the setter a total >= ceil(fee*pct/100) and leaves both fields unset on every failing path.",
+                note="Partial: TxInputsBuilder::total_value and min_ada_for_output are arbitrary results; the coin-selection/balancing call inside the percentage helper is an arbitrary Ok/Err."),
     "C06": dict(engine="E2", design_ref="DESIGN.md 2 / C06", technique="symbolic execution of builder MIR from an arbitrary (lazily initialised) state with stubbed callees; SMT (z3 + cvc5); API-level native confirmation",
                 text="Decided from MIR: validate_fee is exact (Ok iff a fee is set and fee >= min_fee of the unmodified builder) and build_tx calls it (C05 gate obligation, re-run here); the fee-request algebra (get_new_fee, set_final_fee, get_fee_if_set) honours a requested minimum as a lower bound and a fixed fee exactly; the private min_fee is linear fee of fake_full_tx(builder, build(builder)) + script fee + tiered reference-script fee on the total reference-script size, and refuses Plutus inputs without prices / reference scripts without a price; every accepted regular input (all address and credential kinds) is stored once with the given outpoint, amount and reference-script size and records its witness requirement; the total reference-script size sums all eight sources.",
                 note="Partial: fee functions are C15, signer counting C18; the fee/change fixed point is not executed. A solver counterexample is reported as VIOLATION only after the native builder battery (kani/src/battery.rs) exhibits an under-funded or unbalanced released transaction."),
